@@ -66,6 +66,7 @@ FlipEffects(f, s, b, fld) ==
          [] fld = "bh.size" -> {Eff("bigger", FALSE, UB(f, s, b, [K EXCEPT !.hsz = K.hsz + 4]))}
                                \cup (IF K.hsz > 8 THEN {Eff("smaller", FALSE, UB(f, s, b, [K EXCEPT !.hsz = K.hsz - 4]))} ELSE {})
                                \cup (IF PowerOfTwo(SizeByte(K)) THEN {Eff("zero", TRUE, f)} ELSE {})
+                               \cup {Eff("beyond", FALSE, UB(f, s, b, [K EXCEPT !.hsz = FileReal(f) + 4]))}     \* header "longer than the file"
          [] fld \in {"bh.flags", "bh.cs", "bh.us", "bh.filters", "bh.padding", "bh.crc32"} ->
                 {Eff("crc", FALSE, UB(f, s, b, [K EXCEPT !.hcrc = FALSE]))}
                 \cup (IF fld = "bh.flags" THEN {Eff("reserved", FALSE, UB(f, s, b, [K EXCEPT !.hcrc = FALSE, !.resv = TRUE]))} ELSE {})
@@ -209,5 +210,7 @@ RetDocumented == ret \in {"run", "STREAM_END", "FORMAT_ERROR", "OPTIONS_ERROR", 
 Emit == (ret' # "run") =>
           PrintT(<<"PLAN", ToJson([base |-> [nstreams |-> Len(orig.streams), check |-> orig.streams[1].check,
                                              nblocks |-> Len(orig.streams[1].blocks)],
-                                   fault |-> fault, ret |-> ret', same |-> (out' = OrigMeaning /\ ~partial')])>>)
+                                   fault |-> fault, ret |-> ret', same |-> (out' = OrigMeaning /\ ~partial'),
+                                   file |-> IF fault.kind = "none" THEN orig ELSE [streams |-> <<>>],
+                                   fields |-> IF fault.kind = "none" THEN Fields(orig) ELSE <<>>])>>)
 =============================================================================
